@@ -72,6 +72,8 @@ SPECS = [
          params={"stacked_series_lengths": ("list", "int")}, ret="arr1", scalar=True, ones=True),
     dict(file="data_preparation.py", func="stack_training_data",
          params={"data": "arr2", "window_size": "int"}, ret="arr2", scalar=True),
+    dict(file="data_preparation.py", func="stack_training_data_multiple_series",
+         params={"all_series": ("list", "arr2"), "window_size": "int"}, ret="arr2", scalar=True),
     dict(file="admm/unique_values.py", func="_size_including_this_row",
          params={"r": "int", "uncompressed_size": "int"}, ret="rat"),
     dict(file="admm/unique_values.py", func="_elements_in_row_after_target",
@@ -480,6 +482,11 @@ class FuncTranslator:
                     return f"(Py.Arr2.const {dims[0]} {dims[1]} ({fill} : Int))", "arr2int"
                 return f"(Py.Arr2.const {dims[0]} {dims[1]} ({fill} : α))", "arr2"
             raise Unsupported("array rank")
+        if name == "np.vstack" and len(args) == 1 and not kw:
+            a, at = self.expr(args[0])
+            if at == ("list", "arr2"):
+                return f"(Py.vstack {a})", "arr2"
+            raise Unsupported("vstack of " + str(at))
         if name == "np.argmin" and len(args) == 1:
             s, t = self.expr(args[0])
             if t == "arr1":
@@ -802,6 +809,9 @@ def _parse_for(t, tok, var):
     if t == "arr2":
         return (f"let {var} ← parseRatss? {tok}",
                 f"(Py.Arr2.ofLists {var} (({var}.headD []).length) : Py.Arr2 Rat)")
+    if t == ("list", "arr2"):
+        return (f"let {var} ← parseListWith parseRatss? \"|\" {tok}",
+                f"({var}.map (fun m => (Py.Arr2.ofLists m ((m.headD []).length) : Py.Arr2 Rat)))")
     if t == "sov":
         return (f"let {var} ← (match {tok}.splitOn \":\" with\n"
                 f"        | [\"s\", v] => (parseRat? v).map Py.ScalarOrVec.scalar\n"
